@@ -229,10 +229,7 @@ def dynGas (d : Dyn) (mem : Nat) : M (Option Nat) := do
     else pure (some (sstoreCost 3))
   | _ => pure (some 0)
 
-/-- contract.go gasLookUp: the cost of the instruction; as side effects it charges the stack
-    operations of its peeks, records overflow errors and GROWS THE MEMORY — all before the cost
-    itself is charged -/
-def dynPart (info : OpInfo) (d : Dyn) : M Nat := do
+def dynPart (info : OpInfo) (d : Dyn) : M (Nat × Nat) := do
   let mut mem := 0
   match info.mem with
   | .none => pure ()
@@ -246,12 +243,18 @@ def dynPart (info : OpInfo) (d : Dyn) : M Nat := do
   match g with
   | none => pushErr .generic
   | some _ => pure ()
-  memGrow mem
-  pure (g.getD 0)
+  pure (g.getD 0, mem)
 
-def gasLookUp (info : OpInfo) : M Nat :=
-  if info.dyn = .none then pure info.static
-  else dynPart info info.dyn >>= fun g => pure (info.static + g)
+/-- contract.go gasLookUp: the cost of the instruction and the (word aligned) memory size it needs.
+    As side effects it charges the stack operations of its peeks and records overflow errors. -/
+def gasLookUp (info : OpInfo) : M (Nat × Nat) :=
+  if info.dyn = .none then pure (info.static, 0)
+  else dynPart info info.dyn >>= fun gm => pure (info.static + gm.1, gm.2)
+
+/-- contract.go expandMemory (after the cost has been charged): nothing when the error sink is set -/
+def expandMemory (mem : Nat) : M Unit := do
+  let s ← getF
+  if s.err.isSome then pure () else memGrow mem
 
 -- ---------------------------------------------------------------- the instructions
 
@@ -373,7 +376,7 @@ def execRegular (env : Env) (op : Nat) : M Ctl := do
     let x ← pop; let y ← pop; let z ← pop
     push (if z == 0 then 0 else (x * y) % z); pure .next
   | 0x0b => do
-    let back := (← pop) % U64
+    let back ← pop
     if back < 31 then
       let x ← pop
       push (signExtend x ((back + 1) * 8))
@@ -389,7 +392,7 @@ def execRegular (env : Env) (op : Nat) : M Ctl := do
   | 0x18 => binop (· ^^^ ·)
   | 0x19 => do let x ← pop; push (W - 1 - x); pure .next
   | 0x1a => do
-    let idx ← pop64
+    let idx ← pop
     let v ← pop
     push (if idx < 32 then (v / 256 ^ (31 - idx)) % 256 else 0); pure .next
   | 0x1b => do
@@ -451,10 +454,10 @@ def execRegular (env : Env) (op : Nat) : M Ctl := do
     let to ← pop64
     jumpTo env to; pure .jumped
   | 0x57 => do
-    let to ← pop64
+    let to ← pop
     let c ← pop
     if c != 0 then
-      jumpTo env to
+      if to ≥ U64 then pushErr .integerOverflow else jumpTo env to
       pure .jumped
     else pure .next
   | 0x58 => do let s ← getF; push s.pc; pure .next
@@ -507,9 +510,10 @@ def finish (c : Ctl) : M Step :=
 /-- the body of one iteration for opcode `op`: look the cost up (side effects included), charge
     it or stop with InsufficientGas, run the instruction -/
 def stepBody (env : Env) (op : Nat) : M Step :=
-  (noteSeen op >>= fun _ => gasLookUp (opInfo op)) >>= fun cost =>
-  chargeOrStop cost >>= fun ok =>
-  if ok then exec env op >>= finish else pure (.done .empty (some .insufficientGas))
+  (noteSeen op >>= fun _ => gasLookUp (opInfo op)) >>= fun cm =>
+  chargeOrStop cm.1 >>= fun ok =>
+  if ok then (expandMemory cm.2 >>= fun _ => exec env op) >>= finish
+  else pure (.done .empty (some .insufficientGas))
 
 def opAt (env : Env) (pc : Nat) : Nat := if env.code.size ≤ pc then 0 else (env.code.get! pc).toNat
 
